@@ -78,6 +78,7 @@ type inl struct {
 	spaces   bool   // hard break spelled with spaces
 	written  string // label as written in a reference link
 	nlTitle  bool   // a line ending (instead of a space) separates destination and title
+	tab      bool   // iSpace written as a tab (content, passes through)
 }
 
 type blk struct {
@@ -207,6 +208,10 @@ func (g *gen) inlineSeq(n int, depth int, inLink bool, lineBreaks bool) []*inl {
 					out = append(out, &inl{k: iSoft})
 					g.f("inline:softbreak")
 				}
+			} else if lineBreaks && !inLink && g.free() && !g.no("content:tab") && g.r.Intn(14) == 0 {
+				// a tab between two tokens of a line is content and passes through
+				out = append(out, &inl{k: iSpace, tab: true})
+				g.f("content:tab-in-text")
 			} else {
 				out = append(out, &inl{k: iSpace})
 			}
@@ -496,7 +501,7 @@ func (g *gen) codeLinesFor(allowBlank bool, fenceCh byte, fenceN int) []string {
 }
 
 func (g *gen) codeLines0(allowBlank bool) []string {
-	pool := []string{"code", "x := 1", "  indented", "<b>&amp;", "* not a list", "# not a heading", "> q", "a\\*b", "\tTab", "trés", "[l](u)", "    deep"}
+	pool := []string{"code", "x := 1", "  indented", "<b>&amp;", "* not a list", "# not a heading", "> q", "a\\*b", "\tTab", "trés", "[l](u)", "    deep", "a\tb", "x \t y"}
 	n := g.r.Range(1, 4)
 	var out []string
 	for i := 0; i < n; i++ {
@@ -758,7 +763,11 @@ func (g *gen) inlineMD(seq []*inl, sb *strings.Builder) {
 		case iWord:
 			sb.WriteString(in.s)
 		case iSpace:
-			sb.WriteByte(' ')
+			if in.tab {
+				sb.WriteByte('\t')
+			} else {
+				sb.WriteByte(' ')
+			}
 		case iEsc:
 			sb.WriteByte('\\')
 			sb.WriteString(in.s)
@@ -860,7 +869,11 @@ func plainText(seq []*inl, sb *strings.Builder) {
 		case iWord:
 			sb.WriteString(in.s)
 		case iSpace, iHard, iSoft:
-			sb.WriteByte(' ')
+			if in.k == iSpace && in.tab {
+				sb.WriteByte('\t')
+			} else {
+				sb.WriteByte(' ')
+			}
 		case iEsc:
 			sb.WriteString(in.s)
 		case iEntity:
@@ -942,7 +955,11 @@ func (g *gen) inlineHTML(seq []*inl, sb *strings.Builder) {
 		case iWord:
 			sb.WriteString(escText(in.s))
 		case iSpace:
-			sb.WriteByte(' ')
+			if in.tab {
+				sb.WriteByte('\t')
+			} else {
+				sb.WriteByte(' ')
+			}
 		case iEsc:
 			sb.WriteString(escText(in.s))
 		case iEntity:
